@@ -4,6 +4,7 @@ import os
 import time
 
 from hypothesis import HealthCheck, Phase, given, seed, settings
+from hypothesis.errors import Flaky
 
 from . import common
 
@@ -55,6 +56,12 @@ def run_property(ctx, strategy, check_fn, n_examples, workers=None, known_keys=(
             desc, rcase, key = state["last"]
             path = common.save_replay(ctx.pid, rcase)
             res.violation(desc + (" [root cause: %s]" % key if key else ""), None, path)
+        except Flaky:
+            # the failing case passed when Hypothesis executed it again: nothing reproducible to report (the harness owns every
+            # schedule, so this is the machine - a guard timer under load, a killed helper process), and no replay file could show it
+            res.inconclusive += 1
+            res.notes.append("worker %d: a failure did not reproduce on immediate re-execution and was dropped as inconclusive: %s" % (
+                idx, (state["last"][0] if state["last"] else "?")[:300]))
         if state["stop"]:
             res.notes.append("worker %d stopped generating at the wall-clock guard (inconclusive for the remainder)" % idx)
         return res
